@@ -10,6 +10,7 @@ package c20
 // Coordinates stay below 2^12, so the int64 predicates of the oracle remain exact.
 
 import (
+	"math"
 	"fmt"
 
 	"verif/harness/core"
@@ -164,7 +165,7 @@ func (k checker) runFamilies() {
 				c.HarnessError("transform %s is not exact on parabola(%d)", tr.Name, n)
 				continue
 			}
-			for layout := 0; layout < 4; layout++ {
+			for layout := 0; layout < numLayouts; layout++ {
 				for _, order := range [][]P{pts, rev, evenOdd} {
 					k.checkAs(with(order, n), tr, "", layout, fam)   // q last: one insertion invalidates `cavity` triangles
 					k.checkAs(with(order, 0), tr, "", layout, fam)   // q first
@@ -223,8 +224,119 @@ func (k checker) runCounts() {
 		if n%64 == 0 {
 			layout = 3
 		}
+		if n%64 == 32 {
+			layout = 4
+		}
 		k.checkAs(all[:n], id, "", layout, "scattered(every point count)")
 		done++
 	}
 	c.Bound("families.every_point_count", fmt.Sprintf("the first n points of one scattered integer sequence for every n = 3..%d (every 64th in a re-used buffer); above %d triangles the pairwise interior test is replaced by: no directed edge used twice", nmax, pairwiseLimit))
+}
+
+// annulus: n integer points near a circle of radius ~2000, each at a radius of its own within 0.5 % (general
+// position is verified, never assumed), plus a point near the centre.  The Delaunay triangulation
+// of the ring is a set of n-2 thin triangles whose circumcircles all contain the centre: inserting
+// the centre point last invalidates (nearly) all of them in one step — cavities far larger than any
+// the lattice subsets, the parabola or scattered points produce (measured on those: at most ~20).
+func annulus(n int) (ring []P, centre P, ok bool) {
+	for attempt := 0; attempt < 40; attempt++ {
+		ring = ring[:0]
+		for i := 0; i < n; i++ {
+			th := 2 * math.Pi * (float64(i) + 0.37) / float64(n)
+			r := 2000 + float64((i*37+attempt*11)%29)*0.25 + float64(attempt)
+			ring = append(ring, P{int64(math.Round(r * math.Cos(th))), int64(math.Round(r * math.Sin(th)))})
+		}
+		centre = P{int64(3 + attempt), int64(-2 - 2*attempt)}
+		if degeneracy(append(append([]P{}, ring...), centre)) == "" {
+			return ring, centre, true
+		}
+	}
+	return nil, P{}, false
+}
+
+func (k checker) runAnnulus() {
+	c := k.c
+	sizes := []int{8, 12, 16, 24, 31, 32, 33, 40, 48, 63, 64, 65, 80, 100}
+	if c.Thorough() {
+		sizes = append(sizes, 128, 129, 160)
+	}
+	trs := []transform{transforms[0]}
+	for _, name := range []string{"scale=2^-10", "scale=2^-10,offset=(+2^10,-2^10)"} {
+		if t, ok := transformByName(name); ok {
+			trs = append(trs, t)
+		}
+	}
+	for _, n := range sizes {
+		if !c.Next() {
+			continue
+		}
+		if c.Expired() {
+			return
+		}
+		ring, q, ok := annulus(n)
+		if !ok {
+			c.HarnessError("annulus(%d): no instance in general position", n)
+			continue
+		}
+		with := func(order []P, at int) []P {
+			out := append([]P{}, order[:at]...)
+			out = append(out, q)
+			return append(out, order[at:]...)
+		}
+		rev := make([]P, n)
+		var stride []P
+		for i, p := range ring {
+			rev[n-1-i] = p
+		}
+		for s := 0; s < 3; s++ {
+			for i := s; i < n; i += 3 {
+				stride = append(stride, ring[i])
+			}
+		}
+		fam := fmt.Sprintf("annulus(n=%d)+centre(cavity=%d)", n, cavityOf(ring, q))
+		for _, tr := range trs {
+			okT := true
+			for _, p := range append(append([]P{}, ring...), q) {
+				okT = okT && tr.exact(p)
+			}
+			if !okT {
+				continue
+			}
+			for layout := 0; layout < numLayouts; layout++ {
+				for _, order := range [][]P{ring, rev, stride} {
+					k.checkAs(with(order, n), tr, "", layout, fam)
+					k.checkAs(with(order, 0), tr, "", layout, fam)
+					k.checkAs(with(order, n/2), tr, "", layout, fam)
+				}
+			}
+		}
+	}
+	c.Bound("families.annulus", fmt.Sprintf("n integer points near a circle of radius ~2000 (own radius each, general position verified) plus a point near the centre, n in %v; ring orders: by angle, reversed, every third; the centre last / first / in the middle; %d transforms x %d slice layouts", sizes, len(trs), numLayouts))
+}
+
+// cavityOf: the number of Delaunay triangles of pts (by definition: empty circumcircle) whose
+// circumcircle strictly contains q.
+func cavityOf(pts []P, q P) int {
+	n, cnt := len(pts), 0
+	for i := 0; i < n; i++ {
+		for j := i + 1; j < n; j++ {
+			for k := j + 1; k < n; k++ {
+				a, b, c := pts[i], pts[j], pts[k]
+				s := int64(sgn(Orient(a, b, c)))
+				if InCircle(a, b, c, q)*s <= 0 {
+					continue
+				}
+				empty := true
+				for m := 0; m < n && empty; m++ {
+					if m != i && m != j && m != k && InCircle(a, b, c, pts[m])*s > 0 {
+						empty = false
+					}
+				}
+				if empty {
+					cnt++
+				}
+			}
+		}
+	}
+	return cnt
 }
